@@ -47,7 +47,35 @@ E1_RULE = (
     "or one binary operation whose operands are stored in different orders"
 )
 
+# the two configurations recorded in known_findings.json (networks whose own bookkeeping is ill-typed when the bank
+# lacks a filter type); every C20 run re-executes them so that the findings stay visible and stay the same
+_BASE = {"equivariant": True, "depth": 1, "use_bias": "auto", "activation": "gelu", "use_group_norm": False, "preact": False, "kernel_size": 3,
+         "num_blocks": 1, "num_conv": 1, "num_downsamples": 1, "torus": True}
+ILL_TYPED_CFGS = [
+    {**_BASE, "cls": "ResNet", "D": 3, "in_sig": [[0, 0, 1]], "out_sig": [[1, 0, 1], [0, 1, 1], [1, 1, 1]], "spatial": [3, 3, 3]},
+    {**_BASE, "cls": "UNet", "D": 3, "in_sig": [[1, 0, 3]], "out_sig": [[1, 1, 2], [0, 0, 1], [0, 1, 3]], "depth": 2, "use_bias": False, "torus": False, "spatial": [4, 4, 4]},
+]
+
 CHECKS: dict[str, dict] = {
+    "C09": {
+        "batches": lambda tier: [
+            {"engine": "e2_train", "label": "train_equiv", "profile": {"mode": "train_equiv"}, "n_runs": 160 if tier == "quick" else 4000, "budget_s": 230 if tier == "quick" else 2400},
+        ],
+        "rule": (
+            "seeded training life-cycles of the real ml.train on real equivariant models (ConvBlock/ResNet/UNet/DilResNet; unsorted signatures with pseudo-types; all bias modes; "
+            "norm, activation, pre-activation, torus flag; d in {2,3}) with real optax optimisers (sgd, adam, adamw+decay, large learning rates), 1-3 segments of 1-20 epochs, "
+            "1-2 devices, smse / per-timestep loss; faults: crash at a drawn seam call (clock, optimiser update, get_batches, wandb, checkpoint write), torn checkpoints, "
+            "restart with ml.load into a fresh twin or from scratch, optimiser/device/batch change across restarts, wandb stalls, clock jumps. Invariants after every segment: "
+            "equivariance for every g in B_d on three probes (tolerance 2e-3 relative + persistence), filter bank = initial x common scalar, non-vacuity. "
+            "distinct = hash of (class, per-segment optimiser/devices/checkpointing, crash/restart outcomes); non-trivial = some trainable leaf moved by more than 1e-3"
+        ),
+        "components": REAL_STUB,
+        "assumptions": ["float tolerance 2e-3 relative with a three-probe persistence rule; runs that become non-finite are discarded and counted"],
+        "level_text": "Seeded search over training histories (optimiser, steps, devices, batch schedule, crash/restart points) from swarm-sampled equivariant architectures; equivariance for the whole group and the filter-bank rescaling invariant are re-checked after every segment. Sampling, not proof.",
+        "level_note": "Trusted: JAX/equinox/optax; float oracle with tolerance + persistence; each architecture costs 3-30 s of XLA compilation so a quick run covers on the order of a hundred life-cycles.",
+        "technique": "deterministic simulation of the training loop with crash/restart, torn-checkpoint, device-schedule, network and clock faults on real models and optimisers; equivariance and filter-bank invariants after every segment",
+        "design_ref": "DESIGN.md section 3 (C09)",
+    },
     "C12": {
         "batches": _e1("arith", {"arith": 3}, 600, 24000),
         "rule": E1_RULE,
@@ -72,7 +100,9 @@ CHECKS: dict[str, dict] = {
         "assumptions": ["values are small integers in float32, so the oracle is bit-exact"],
     },
     "C14": {
-        "batches": _e1("per_image", {"obs": 4}, 500, 20000),
+        "batches": lambda tier: _e1("per_image", {"obs": 4}, 400, 16000)(tier) + [
+            {"engine": "e2_train", "label": "crosstalk", "profile": {"mode": "crosstalk"}, "n_runs": 96 if tier == "quick" else 3000, "budget_s": 150 if tier == "quick" else 1500},
+        ],
         "rule": E1_RULE,
         "level_text": "Seeded search over operation-and-transport histories of real MultiImage objects against an unordered reference model, compared bit-exactly by type after every step; failing histories are delta-debugged to a few operations and replayed from a file. Sampling, not proof.",
         "level_note": "Trusted: the numpy reference semantics in sim/engines/e1_container.py (about 250 lines), JAX as installed. Values are small integers so float32 arithmetic is exact.",
@@ -84,6 +114,7 @@ CHECKS: dict[str, dict] = {
     "C20": {
         "batches": lambda tier: [
             {"engine": "e4_lifecycle", "label": "lifecycle", "profile": {"mode": "lifecycle"}, "n_runs": 320 if tier == "quick" else 8000, "budget_s": 200 if tier == "quick" else 1800},
+            {"engine": "e4_lifecycle", "label": "ill_typed_under_missing_filters", "profile": {"mode": "lifecycle", "fixed_cfgs": ILL_TYPED_CFGS}, "n_runs": 16, "budget_s": 120},
         ],
         "rule": (
             "seeded (model class in ConvContract/ConvBlock/ResNet/DilResNet/UNet, equivariant flag, unsorted input/output signatures incl. pseudo-types and unequal channels, "
